@@ -362,4 +362,30 @@ def CfIndex.connect (Hk : Bytes → Bytes → Nat) (dsha : Bytes → Bytes) (idx
 def CfIndex.disconnect (idx : CfIndex) (blockHash : Bytes) : CfIndex :=
   idx.filter (fun x => x.blockHash != blockHash)
 
+/-- a block as `ConnectBlock` sees it -/
+structure CfBlockIn where
+  bh : Bytes
+  prev : Bytes
+  outs : List (List Bytes)
+  prevs : List Bytes
+
+/-- connect a list of blocks in order, each in its own transaction; `none` if one of them fails -/
+def CfIndex.connectAll (Hk : Bytes → Bytes → Nat) (dsha : Bytes → Bytes) : CfIndex → List CfBlockIn → Option CfIndex
+  | idx, [] => some idx
+  | idx, b :: bs =>
+    match idx.connect Hk dsha b.bh b.prev b.outs b.prevs with
+    | none => none
+    | some idx' => connectAll Hk dsha idx' bs
+
+/-- the filter hash `ConnectBlock` stores for a block -/
+def cfFilterHash (Hk : Bytes → Bytes → Nat) (dsha : Bytes → Bytes) (b : CfBlockIn) : Bytes :=
+  match buildBasicFilter Hk b.bh b.outs b.prevs with
+  | .ok f => filterHash dsha f
+  | .error _ => []
+
+/-- each block's PrevBlock is the hash of the block before it (`first` for the head of the list) -/
+def cfLinked : Bytes → List CfBlockIn → Prop
+  | _, [] => True
+  | first, b :: bs => b.prev = first ∧ cfLinked b.bh bs
+
 end BV.C20
